@@ -1,6 +1,7 @@
 (* C02 - exit status reflects the worst finding; incomplete audits never look clean. *)
 From VModel Require Import Report.
-From VProofs Require Import RatingProofs.
+From VProofs Require Import RatingProofs AuditProofs.
+From VModel Require Import AuditSM.
 Open Scope string_scope. Open Scope list_scope. Open Scope Z_scope.
 
 Theorem c02_exit_codes_documented : exit_GOOD = 0 /\ exit_CONNECTION_ERROR = 1 /\ exit_WARNING = 2 /\ exit_FAILURE = 3.
@@ -25,3 +26,13 @@ Proof. exact report_status_is_worst. Qed.
 Theorem c02_policy_status : forall passed,
   (policy_exit passed = exit_GOOD <-> passed = true) /\ (policy_exit passed = exit_FAILURE <-> passed = false).
 Proof. exact policy_status. Qed.
+
+(* an audit that could not obtain and parse the peer's algorithm lists exits 1 (never 0, 2 or 3); no report exists on that path *)
+Theorem c02_incomplete_never_clean : forall sshv a hs hs1 st,
+  (forall k, match hs with HsPacket p => classify sshv a p <> ApKex k | _ => True end) ->
+  (forall m, match hs with HsPacket p => classify sshv a p <> ApPkm m | _ => True end) ->
+  (forall k, match hs1 with HsPacket p => classify 1 a p <> ApKex k | _ => True end) ->
+  (forall m, match hs1 with HsPacket p => classify 1 a p <> ApPkm m | _ => True end) ->
+  (forall e, audit_exit sshv a hs hs1 st <> Uncaught e) ->
+  audit_exit sshv a hs hs1 st = Exit exit_CONNECTION_ERROR.
+Proof. exact bad_handshake_exit1. Qed.
